@@ -118,7 +118,7 @@ pub fn check_ok_result(
     let g = guarantee_of(effective.guarantee());
     let cert = certify(
         snap,
-        &CertOpts { levels: Opts::euclid(g, true), delaunay: true, convex: true, coverage: true, reference: true },
+        &CertOpts { levels: Opts::ball(g, true), delaunay: true, convex: true, coverage: true, reference: true },
     );
     let mut problems: Vec<(String, String, Vec<(&'static str, Value)>)> = cert
         .problems()
